@@ -111,6 +111,29 @@ pub(crate) fn reverse_indexes<const D: usize>(
     })
 }
 
+/// Bounds checked version of [reverse_indexes] for the checked getters, returning None instead of
+/// underflowing when an index to reverse is out of bounds for its dimension (which includes every
+/// index if that dimension has a length of 0).
+pub(crate) fn try_reverse_indexes<const D: usize>(
+    indexes: &[usize; D],
+    shape: &[(Dimension, usize); D],
+    reversed: &[bool; D]
+) -> Option<[usize; D]> {
+    let mut reversed_indexes = *indexes;
+    for d in 0..D {
+        if reversed[d] {
+            let length = shape[d].1;
+            let index = indexes[d];
+            if index >= length {
+                return None;
+            }
+            // swap dimension indexing, so 0 becomes length-1, and length-1 becomes 0
+            reversed_indexes[d] = (length - 1) - index;
+        }
+    }
+    Some(reversed_indexes)
+}
+
 // # Safety
 //
 // The type implementing TensorRef must implement it correctly, so by delegating to it
@@ -126,7 +149,7 @@ where
 {
     fn get_reference(&self, indexes: [usize; D]) -> Option<&T> {
         self.source.get_reference(
-            reverse_indexes(&indexes, &self.view_shape(), &self.reversed)
+            try_reverse_indexes(&indexes, &self.view_shape(), &self.reversed)?
         )
     }
 
@@ -163,7 +186,7 @@ where
 {
     fn get_reference_mut(&mut self, indexes: [usize; D]) -> Option<&mut T> {
         self.source.get_reference_mut(
-            reverse_indexes(&indexes, &self.view_shape(), &self.reversed)
+            try_reverse_indexes(&indexes, &self.view_shape(), &self.reversed)?
         )
     }
 
